@@ -30,10 +30,10 @@ var PosMode = 0
 
 var palette = []vector3.Float64{
 	vector3.New(0., 0., 0.),
-	vector3.New(0.01, 0., 0.), // same rounding cell as the origin at one decimal place
 	vector3.New(1., 0., 0.),
 	vector3.New(0., 1., 0.),
-	vector3.New(2., 0., 0.), // collinear with the first and third
+	vector3.New(2., 0., 0.),   // collinear with the first two
+	vector3.New(0.01, 0., 0.), // same rounding cell as the origin at one decimal place
 }
 
 func symPos(name string) vector3.Float64 {
@@ -42,6 +42,10 @@ func symPos(name string) vector3.Float64 {
 		return palette[zz.Choose(name+".pal", zz.Bound("PAL"))]
 	case 2:
 		return vector3.New(zz.Float64(name+".x"), 0, 0)
+	case 3:
+		// a palette entry selected by a symbolic index: the position is a guarded constant, and the paths
+		// split lazily - only when the operation actually compares two positions
+		return palette[zz.Int(name+".pal", 0, zz.Bound("PAL")-1)]
 	}
 	return sv3(name)
 }
